@@ -34,10 +34,11 @@ Definition se2_adj (c : list (K F)) : list (list (K F)) :=
 (* SE2(x, y, theta) constructor: SE2(x, y, cos(theta), sin(theta)) *)
 Definition se2_from_angle (x y theta : K F) : list (K F) := [x; y; kcos F theta; ksin F theta].
 
+(* SE2Base::inverse (after fix: the conjugate complex number, not cos/sin of -angle()) *)
 Definition se2_inverse (c : list (K F)) : list (K F) :=
-  se2_from_angle (- se2_x c * se2_real c - se2_y c * se2_imag c)
-                 (se2_x c * se2_imag c - se2_y c * se2_real c)
-                 (- se2_angle c).
+  [- se2_x c * se2_real c - se2_y c * se2_imag c;
+   se2_x c * se2_imag c - se2_y c * se2_real c;
+   se2_real c; - se2_imag c].
 Definition se2_inverse_J (c : list (K F)) : list (list (K F)) := mneg (se2_adj c).
 
 (* A = sin t / t, B = (1 - cos t)/t with the Taylor branch on theta_sq < eps *)
